@@ -18,6 +18,7 @@ in conditional constant propagation); calls to local functions are analysed with
 depth-bounded).  The result is the set of may-effects {(variant, field, op, amount)} of stores through references into
 self.  Loops make the function undecidable for this analysis (None is returned).
 """
+import re
 
 TOP = ("TOP",)
 BOT = ("BOT",)
@@ -334,6 +335,24 @@ class Net:
                 g = self.prog.fn(c.get("resolved") or c.get("path", "")) if c else None
                 if g is None and c.get("path"):
                     g = self.prog.fn(c["path"])
+                if g is None and c.get("trait") in ("std::ops::Fn", "std::ops::FnMut", "std::ops::FnOnce") and len(vals) == 2:
+                    # a call of a local closure (`let modify = |val: &mut usize, adj| ..; modify(&mut *x, d)`): the closure body
+                    # with the components of the argument tuple as its arguments
+                    a0 = t["args"][0]
+                    tys = ""
+                    if a0.get("k") in ("copy", "move"):
+                        tys = m.local_ty_str(a0["p"]["l"]) or ""
+                        sd0 = m.single_def(a0["p"]["l"]) if not a0["p"]["proj"] else None
+                        if sd0 and sd0[2] == "assign" and sd0[3]["k"] == "ref":
+                            tys = m.local_ty_str(sd0[3]["p"]["l"]) or tys
+                    mm_ = re.search(r"closure@[^:]+:(\d+):", tys)
+                    cands = [cf for cf in self.prog.closures_of.get(fn.path, []) if cf.mir and mm_ and cf.line == int(mm_.group(1))]
+                    if len(cands) == 1 and vals[1] and vals[1][0] == "T":
+                        g = cands[0]
+                        vals = [vals[0]] + list(vals[1][1])
+                if g is not None and g.kind == "Closure" and c.get("trait") in ("std::ops::Fn", "std::ops::FnMut", "std::ops::FnOnce") \
+                        and len(vals) == 2 and vals[1] and vals[1][0] == "T":
+                    vals = [vals[0]] + list(vals[1][1])      # closure bodies take the argument tuple spread out
                 if g is not None and g.mir is not None and g is not fn:
                     out = self.run(g, vals, depth + 1)
                 else:
